@@ -276,13 +276,23 @@ def oracle(line, f, model):
         by_addr = {}
         for d, p in zip(disp, order):
             by_addr.setdefault(d[1], []).append((d[0], p))
-        inv = cinv = cover = 0
+        inv = cinv = xinv = cover = 0
         for ad, l in by_addr.items():
-            for x in range(len(l) - 1):
-                if l[x][1] > l[x + 1][1]:
-                    inv += 1
-                    if l[x][0] == 'c':
-                        cinv += 1
+            starts = [int(execd[p][4]) for _, p in l]
+            threads = [execd[p][3] for _, p in l]
+            for x in range(len(l)):
+                for y in range(x + 1, len(l)):
+                    if starts[y] < starts[x]:
+                        # invocation y was dispatched after x but started before it
+                        if threads[x] == threads[y]:
+                            bad.append(('order-same-thread', 'one worker thread ran two invocations for %s against their '
+                                        'dispatch order' % ad, True))
+                        elif l[x][0] == 'c':
+                            cinv += 1
+                        elif l[y][0] == 'x':
+                            xinv += 1
+                        else:
+                            inv += 1
             # overlap of a connect body with a later message body
             for x in range(len(l)):
                 if l[x][0] == 'c':
@@ -293,9 +303,14 @@ def oracle(line, f, model):
                         if int(execd[l[y][1]][4]) < cend:
                             cover += 1
                             break
-        stats['start_inversions'] = inv
+        stats['message_start_inversions'] = inv
         stats['connect_start_inversions'] = cinv
+        stats['disconnect_start_inversions'] = xinv
         stats['connect_overlapped_by_message'] = cover
+        if cinv or xinv:
+            bad.append(('handler-start-order', 'pool of %d handler threads: for one client %d handler invocation(s) started '
+                        'before the connect handler dispatched earlier had started, %d disconnect handler invocation(s) '
+                        'started before an invocation dispatched earlier' % (pool, cinv, xinv), True))
     # --- (D) independent table replay: lifetimes, broadcast targets
     table = []
     life = {}          # addr -> list of dict(writes, recvs, closed)
